@@ -7,7 +7,7 @@ export VERIF_ROOT="$(pwd)" VERIF_REPO="${VERIF_REPO:-/repo}"
 export PYTHONPATH="$VERIF_ROOT/harness:$VERIF_REPO" PYTHONHASHSEED=0 PYTHONDONTWRITEBYTECODE=1
 mkdir -p coq/Gen evidence replays extract/gen/Bins extract/gen/Partitions extract/gen/Dtype extract/gen/Overlap
 /venv/bin/python translator/py2coq.py coq/Gen
-for t in translator/cli2coq.py translator/workers2coq.py translator/proto2coq.py translator/buf2coq.py translator/icfw2coq.py translator/plink2coq.py translator/ridx2coq.py translator/regions2coq.py translator/san2coq.py translator/enc2coq.py translator/offs2coq.py translator/schema2coq.py translator/iter2coq.py translator/scan2coq.py translator/summ2coq.py translator/refine2coq.py translator/initarr2coq.py translator/explode2coq.py translator/lpl2coq.py translator/idx2coq.py translator/ivcf2coq.py; do [ -f $t ] && /venv/bin/python $t coq/Gen || true; done
+for t in translator/cli2coq.py translator/workers2coq.py translator/proto2coq.py translator/buf2coq.py translator/icfw2coq.py translator/plink2coq.py translator/ridx2coq.py translator/regions2coq.py translator/san2coq.py translator/enc2coq.py translator/offs2coq.py translator/schema2coq.py translator/iter2coq.py translator/scan2coq.py translator/summ2coq.py translator/refine2coq.py translator/initarr2coq.py translator/explode2coq.py translator/lpl2coq.py translator/idx2coq.py translator/ivcf2coq.py translator/transf2coq.py; do [ -f $t ] && /venv/bin/python $t coq/Gen || true; done
 (cd coq && coq_makefile -f _CoqProject -o Makefile >/dev/null && timeout 3000 make -j16)
 (cd extract && ocamlfind ocamlopt -O3 -w -a model.mli model.ml driver.ml -o model)
 for u in Bins Partitions Dtype Overlap; do (cd extract/gen/$u && sed 's/(dispatch /(gen_dispatch /' ../../driver.ml > driver.ml && ocamlfind ocamlopt -O3 -w -a model.mli model.ml driver.ml -o genmodel); done
